@@ -56,7 +56,18 @@ func (cj *CookieJar) Get(uri *fasthttp.URI) []*fasthttp.Cookie {
 	cj.mu.Lock()
 	defer cj.mu.Unlock()
 
-	return cj.getByHostAndPath(uri.Host(), uri.Path())
+	stored := cj.getByHostAndPath(uri.Host(), uri.Path())
+	if len(stored) == 0 {
+		return stored
+	}
+
+	// The caller gets copies (and may release them): the stored objects stay the jar's own.
+	cookies := make([]*fasthttp.Cookie, len(stored))
+	for i, cookie := range stored {
+		cookies[i] = fasthttp.AcquireCookie()
+		cookies[i].CopyTo(cookie)
+	}
+	return cookies
 }
 
 // getByHostAndPath returns cookies stored for a specific host and path: the jar's own objects, which other
